@@ -407,11 +407,24 @@ def check_loop(ctx, rep, INNER_FN, se, pr, lp):
         if k == "switch":
             d = strip(info["discr"])
             neg = False
-            while d[0] == "unop" and d[1] == "Not":
-                neg = not neg
-                d = d[2]
+            full = tuple(seen) + (bb,)
+            for _ in range(8):
+                while d[0] == "unop" and d[1] == "Not":
+                    neg = not neg
+                    d = strip(d[2])
+                # a verdict merged from several arms (`a && b`, an inlined predicate): on this
+                # path it is the value of the arm the path came through
+                if d[0] == "phi" and len(d) == 5 and d[4] == () and (d[2], d[3]) in se.phi_inputs and d[2] in full:
+                    ix = max(i for i, b_ in enumerate(full) if b_ == d[2])
+                    ins = se.phi_inputs[(d[2], d[3])]
+                    if ix > 0 and full[ix - 1] in ins:
+                        d = strip(ins[full[ix - 1]])
+                        continue
+                break
             ts = fs = None
-            if util.is_call(d) and d[1] in PRED and d[2][0] == c_term:
+            if d[0] == "int" and d[2] == "bool":
+                ts, fs = (cs, []) if d[1] else ([], cs)
+            elif util.is_call(d) and d[1] in PRED and d[2][0] == c_term:
                 ts = inter(cs, PRED[d[1]])
                 fs = minus(cs, PRED[d[1]])
             elif util.is_call(d) and d[1] in fb.bodies and len(d[2]) == 1 and strip(d[2][0]) == c_term:
@@ -422,8 +435,8 @@ def check_loop(ctx, rep, INNER_FN, se, pr, lp):
                     ts, fs = fs, ts
                 tg = info["targets"]
                 if len(tg) == 1 and tg[0][0] == 0:
-                    explore(tg[0][1], fs, seen | {bb})
-                    explore(info["otherwise"], ts, seen | {bb})
+                    explore(tg[0][1], fs, seen + (bb,))
+                    explore(info["otherwise"], ts, seen + (bb,))
                     return
             undec.append(("unrecognised test %s" % show(d, maxdepth=3), cs))
             return
@@ -431,9 +444,9 @@ def check_loop(ctx, rep, INNER_FN, se, pr, lp):
             undec.append(("returns without verdict", cs))
             return
         for s_ in body.succs(bb):
-            explore(s_, cs, seen | {bb})
+            explore(s_, cs, seen + (bb,))
 
-    explore(lp["body_bb"], ALL, frozenset())
+    explore(lp["body_bb"], ALL, ())
     accept = norm_set(accept)
     reject = norm_set(reject)
     if undec:
